@@ -12,6 +12,7 @@ mod calib;
 mod sgen;
 mod census;
 mod interp;
+mod isolate;
 mod log;
 mod minimise;
 mod model;
@@ -40,6 +41,12 @@ fn init() {
         ::log::set_max_level(::log::LevelFilter::Trace);
     }
     actors::SPAWN_CHILD.set(interp::spawn_plain_addr).ok();
+    // create the process-global registry here, so that no run pays for (and shifts its RandomState
+    // sequence by) the lazy initialisation
+    {
+        use hannibal::Service;
+        let _ = actors::SA::try_from_registry();
+    }
     futures_util::__verif_set_random_hook(simrt::select_random);
     let prev = std::panic::take_hook();
     std::panic::set_hook(Box::new(move |info| {
@@ -146,6 +153,67 @@ fn fault_counts(v: &View, acc: &mut BTreeMap<String, u64>) {
     }
 }
 
+#[derive(Serialize, Deserialize, Default)]
+struct RunSummary {
+    nontrivial: bool,
+    sig: u64,
+    hash: u64,
+    violations: Vec<(String, String, String, String)>, // property, rule, signature, detail
+    probes: BTreeMap<String, u64>,
+    faults: BTreeMap<String, u64>,
+    policy: String,
+    racing: bool,
+    steps: u64,
+    vtime: u64,
+    events: u64,
+    cap: bool,
+    hung: bool,
+    sample: Option<serde_json::Value>,
+    outcome: Option<String>,
+}
+
+/// everything that belongs to one run: generate, simulate, judge, summarise
+fn per_run(p: &props::PropDef, tier: &str, base: u64, index: u64, want_sample: bool) -> RunSummary {
+    let sc = make_scenario(p, tier, base, index);
+    let out = interp::run_scenario(&sc);
+    let v = View::new(&sc, &out);
+    analysis::coverage_probes(&v);
+    let vs = (p.check)(&v);
+    let nt = (p.nontrivial)(&v);
+    let mut r = RunSummary { nontrivial: nt, hash: out.hash, ..Default::default() };
+    if let Some(f) = p.outcome {
+        r.outcome = Some(format!("{:016x}", prop_salt(&f(&v))));
+    }
+    for (k, n) in out.probes.iter().chain(log::take_probes().iter()) {
+        *r.probes.entry(k.to_string()).or_insert(0) += n;
+    }
+    fault_counts(&v, &mut r.faults);
+    r.policy = format!("{:?}", sc.sched.policy).split([' ', '{']).next().unwrap().to_string();
+    r.racing = sc.sched.racing_per_mille > 0;
+    r.steps = out.outcome.steps;
+    r.vtime = out.outcome.vtime_end;
+    r.events = out.log.len() as u64;
+    r.cap = out.outcome.cap_phase != 0;
+    r.hung = out.outcome.hung;
+    if nt {
+        r.sig = analysis::event_order_signature(&v);
+        if want_sample {
+            r.sample = Some(serde_json::json!({
+                "index": index,
+                "run_seed": run_seed(base, p.id, index),
+                "scenario": sc,
+                "decisions": out.decisions,
+                "steps": out.outcome.steps,
+                "events": out.log.len(),
+            }));
+        }
+    }
+    for x in vs {
+        r.violations.push((x.property, x.rule, x.signature, x.detail));
+    }
+    r
+}
+
 fn worker(args: &[String]) -> i32 {
     // "ORACLE@GENERATOR": judge the scenarios of another property's profile with this oracle
     let (oracle_id, gen_id) = match args[0].split_once('@') {
@@ -177,60 +245,43 @@ fn worker(args: &[String]) -> i32 {
     let mut racing_runs = 0u64;
     let mut outcomes: Vec<(u64, String)> = vec![];
     for index in start..start + count {
-        let sc = make_scenario(&p, tier, base, index);
-        let out = interp::run_scenario(&sc);
-        let v = View::new(&sc, &out);
-        analysis::coverage_probes(&v);
-        let vs = (p.check)(&v);
-        let nt = (p.nontrivial)(&v);
-        if let Some(f) = p.outcome {
-            let rec = f(&v);
-            outcomes.push((index, format!("{:016x}", prop_salt(&rec))));
+        let want_sample = samples.len() < 2;
+        let Some(r) = isolate::isolated(|| per_run(&p, tier, base, index, want_sample)) else {
+            eprintln!("hsim: run {index} of {} (seed {base}) died inside the simulator process", p.id);
+            return 2;
+        };
+        for (k, n) in r.probes {
+            *probes.entry(k).or_insert(0) += n;
         }
-        for (k, n) in out.probes.iter().chain(log::take_probes().iter()) {
-            *probes.entry(k.to_string()).or_insert(0) += n;
+        for (k, n) in r.faults {
+            *faults.entry(k).or_insert(0) += n;
         }
-        fault_counts(&v, &mut faults);
-        *policies.entry(format!("{:?}", sc.sched.policy).split([' ', '{']).next().unwrap().to_string()).or_insert(0) += 1;
-        if sc.sched.racing_per_mille > 0 {
-            racing_runs += 1;
+        *policies.entry(r.policy).or_insert(0) += 1;
+        racing_runs += r.racing as u64;
+        steps += r.steps;
+        vtime += r.vtime;
+        events += r.events;
+        cap_hits += r.cap as u64;
+        hung += r.hung as u64;
+        hashes.insert(r.hash);
+        if let Some(o) = r.outcome {
+            outcomes.push((index, o));
         }
-        steps += out.outcome.steps;
-        vtime += out.outcome.vtime_end;
-        events += out.log.len() as u64;
-        if out.outcome.cap_phase != 0 {
-            cap_hits += 1;
-        }
-        if out.outcome.hung {
-            hung += 1;
-        }
-        hashes.insert(out.hash);
-        if nt {
+        if r.nontrivial {
             nontrivial += 1;
-            let sig = analysis::event_order_signature(&v);
-            if sigs.insert(sig) && samples.len() < 2 {
-                samples.push(serde_json::json!({
-                    "index": index,
-                    "run_seed": run_seed(base, p.id, index),
-                    "scenario": sc,
-                    "decisions": out.decisions,
-                    "steps": out.outcome.steps,
-                    "events": out.log.len(),
-                }));
+            if sigs.insert(r.sig) {
+                if let Some(s) = r.sample {
+                    if samples.len() < 2 {
+                        samples.push(s);
+                    }
+                }
             }
         }
-        for x in vs {
-            let n = per_sig.entry(x.signature.clone()).or_insert(0);
+        for (property, rule, signature, detail) in r.violations {
+            let n = per_sig.entry(signature.clone()).or_insert(0);
             *n += 1;
             if *n <= 3 {
-                violations.push(ViolationOut {
-                    index,
-                    run_seed: run_seed(base, p.id, index),
-                    property: x.property,
-                    rule: x.rule,
-                    signature: x.signature,
-                    detail: x.detail,
-                });
+                violations.push(ViolationOut { index, run_seed: run_seed(base, p.id, index), property, rule, signature, detail });
             }
         }
     }
@@ -252,13 +303,49 @@ fn worker(args: &[String]) -> i32 {
     0
 }
 
-fn check_scenario(p: &props::PropDef, sc: &Scenario) -> (Vec<Violation>, interp::RunOutput) {
-    let out = interp::run_scenario(sc);
-    let vs = {
-        let v = View::new(sc, &out);
-        (p.check)(&v)
-    };
-    (vs, out)
+/// what the drivers need to know about one run of one scenario (computed in an isolated child)
+#[derive(Serialize, Deserialize)]
+struct Judged {
+    violations: Vec<(String, String, String, String)>,
+    decisions: Vec<u32>,
+    hash: u64,
+    diverged: bool,
+    log: Vec<String>,
+    outcome: String,
+    alive: String,
+    record: String,
+}
+
+fn judge(p: &props::PropDef, sc: &Scenario, with_log: bool) -> Judged {
+    let p_id = p.id.to_string();
+    let check = p.check;
+    let outcome_fn = p.outcome;
+    let sc2 = sc.clone();
+    isolate::isolated(move || {
+        let out = interp::run_scenario(&sc2);
+        let v = View::new(&sc2, &out);
+        let vs = check(&v);
+        let _ = log::take_probes();
+        Judged {
+            violations: vs.into_iter().map(|x| (x.property, x.rule, x.signature, x.detail)).collect(),
+            decisions: out.decisions.clone(),
+            hash: out.hash,
+            diverged: out.outcome.replay_diverged,
+            log: if with_log {
+                out.log.iter().map(|r| format!("{:>5} step={:<5} t={:<8} task={:<3} {:?}", r.st.seq, r.st.step, r.st.vtime, r.st.task as i32, r.ev)).collect()
+            } else {
+                vec![]
+            },
+            outcome: format!("{:?}", out.outcome),
+            alive: format!("{:?}", out.alive_at_end),
+            record: outcome_fn.map(|f| f(&v)).unwrap_or_default(),
+        }
+    })
+    .unwrap_or_else(|| panic!("hsim: a run of {p_id} died inside the simulator process"))
+}
+
+fn has_rule(j: &Judged, rule: &str) -> bool {
+    j.violations.iter().any(|v| v.1 == rule)
 }
 
 fn minimise_cmd(args: &[String]) -> i32 {
@@ -268,27 +355,26 @@ fn minimise_cmd(args: &[String]) -> i32 {
     let index: u64 = args[3].parse().unwrap();
     let rule = args[4].clone();
     let outp = &args[5];
-    let sc = make_scenario(&p, tier, base, index);
-    let (vs, _) = check_scenario(&p, &sc);
-    if !vs.iter().any(|v| v.rule == rule) {
+    // (the generator of some profiles runs a counting simulation: keep even that out of this process)
+    let (pid, t2) = (p.id.to_string(), tier.to_string());
+    let sc: Scenario = isolate::isolated(move || make_scenario(&props::get(&pid).unwrap(), &t2, base, index)).expect("scenario generation died");
+    if !has_rule(&judge(&p, &sc, false), &rule) {
         eprintln!("minimise: run {index} does not reproduce rule {rule}");
         return 2;
     }
     let mut m = minimise::Minimiser { prop: &p, rule: rule.clone(), runs: 0, budget: 1500 };
-    let small = m.minimise(&sc);
+    let mut small = m.minimise(&sc);
     // make the schedule explicit: replay the recorded decision list instead of the seeded policy,
     // then shorten it (the suffix falls back to "lowest task id") while the same rule still fails
-    let mut small = small;
     {
-        let (vs0, out0) = check_scenario(&p, &small);
-        if vs0.iter().any(|v| v.rule == rule) {
-            let full = out0.decisions.clone();
+        let j0 = judge(&p, &small, false);
+        if has_rule(&j0, &rule) {
+            let full = j0.decisions.clone();
             let mut cand = small.clone();
             cand.sched.decisions = Some(full.clone());
-            let (vsx, outx) = check_scenario(&p, &cand);
-            if vsx.iter().any(|v| v.rule == rule) && !outx.outcome.replay_diverged {
+            let jx = judge(&p, &cand, false);
+            if has_rule(&jx, &rule) && !jx.diverged {
                 let mut best = full.clone();
-                // try ever shorter prefixes
                 let mut len = best.len();
                 let mut step = (len / 2).max(1);
                 let mut tries = 0;
@@ -300,9 +386,8 @@ fn minimise_cmd(args: &[String]) -> i32 {
                     }
                     let mut c2 = small.clone();
                     c2.sched.decisions = Some(best[..len - step].to_vec());
-                    let (v2, _) = check_scenario(&p, &c2);
                     m.runs += 1;
-                    if v2.iter().any(|v| v.rule == rule) {
+                    if has_rule(&judge(&p, &c2, false), &rule) {
                         len -= step;
                     } else {
                         step /= 2;
@@ -317,14 +402,14 @@ fn minimise_cmd(args: &[String]) -> i32 {
             }
         }
     }
-    // two confirmation runs in this process; the driver replays once more in a fresh process
-    let (vs1, out1) = check_scenario(&p, &small);
-    let (vs2, out2) = check_scenario(&p, &small);
-    let Some(v1) = vs1.iter().find(|v| v.rule == rule) else {
+    // two confirmation runs; the driver replays once more in a fresh process
+    let j1 = judge(&p, &small, false);
+    let j2 = judge(&p, &small, false);
+    let Some(v1) = j1.violations.iter().find(|v| v.1 == rule) else {
         eprintln!("minimise: minimised scenario does not reproduce");
         return 2;
     };
-    if out1.hash != out2.hash || !vs2.iter().any(|v| v.rule == rule) {
+    if j1.hash != j2.hash || !has_rule(&j2, &rule) {
         eprintln!("minimise: minimised scenario is not deterministic");
         return 2;
     }
@@ -334,13 +419,13 @@ fn minimise_cmd(args: &[String]) -> i32 {
         base_seed: base,
         index,
         rule,
-        signature: v1.signature.clone(),
-        detail: v1.detail.clone(),
+        signature: v1.2.clone(),
+        detail: v1.3.clone(),
         minimised: true,
         minimiser_runs: m.runs,
         scenario: small,
-        decisions: out1.decisions.clone(),
-        trace_hash: format!("{:016x}", out1.hash),
+        decisions: j1.decisions.clone(),
+        trace_hash: format!("{:016x}", j1.hash),
     };
     std::fs::write(outp, serde_json::to_vec_pretty(&rf).unwrap()).unwrap();
     0
@@ -350,19 +435,17 @@ fn replay_cmd(args: &[String]) -> i32 {
     let data = std::fs::read(&args[0]).expect("cannot read replay file");
     let rf: ReplayFile = serde_json::from_slice(&data).expect("bad replay file");
     let p = props::get(&rf.property).expect("unknown property");
-    let (vs, out) = check_scenario(&p, &rf.scenario);
     let verbose = args.iter().any(|a| a == "-v");
-    if verbose {
-        for r in &out.log {
-            println!("{:>5} step={:<5} t={:<8} task={:<3} {:?}", r.st.seq, r.st.step, r.st.vtime, r.st.task as i32, r.ev);
-        }
+    let j = judge(&p, &rf.scenario, verbose);
+    for l in &j.log {
+        println!("{l}");
     }
-    let same_trace = format!("{:016x}", out.hash) == rf.trace_hash && out.decisions == rf.decisions;
+    let same_trace = format!("{:016x}", j.hash) == rf.trace_hash && j.decisions == rf.decisions;
     println!("replay: property={} rule={} trace_identical={}", rf.property, rf.rule, same_trace);
     let mut hit = false;
-    for v in &vs {
-        println!("  violated: {} :: {}", v.signature, v.detail);
-        if v.rule == rf.rule {
+    for v in &j.violations {
+        println!("  violated: {} :: {}", v.2, v.3);
+        if v.1 == rf.rule {
             hit = true;
         }
     }
@@ -377,36 +460,36 @@ fn replay_cmd(args: &[String]) -> i32 {
 
 fn show_cmd(args: &[String]) -> i32 {
     let p = props::get(&args[0]).expect("unknown property");
-    let tier = args[1].as_str();
+    let tier = args[1].to_string();
     let base: u64 = args[2].parse().unwrap();
     let index: u64 = args[3].parse().unwrap();
-    let sc = make_scenario(&p, tier, base, index);
+    let (pid, t2) = (p.id.to_string(), tier.clone());
+    let sc: Scenario = isolate::isolated(move || make_scenario(&props::get(&pid).unwrap(), &t2, base, index)).expect("scenario generation died");
     println!("{}", serde_json::to_string_pretty(&sc).unwrap());
-    let (vs, out) = check_scenario(&p, &sc);
-    for r in &out.log {
-        println!("{:>5} step={:<5} t={:<8} task={:<3} {:?}", r.st.seq, r.st.step, r.st.vtime, r.st.task as i32, r.ev);
+    let j = judge(&p, &sc, true);
+    for l in &j.log {
+        println!("{l}");
     }
-    println!("{:?}", out.outcome);
-    println!("alive at end: {:?}", out.alive_at_end);
-    for v in vs {
-        println!("VIOLATED {} :: {}", v.signature, v.detail);
+    println!("{}", j.outcome);
+    println!("alive at end: {}", j.alive);
+    for v in &j.violations {
+        println!("VIOLATED {} :: {}", v.2, v.3);
     }
     0
 }
 
-/// print the scenario of a run as JSON (first line) and its canonical outcome record
+/// print the scenario of a run as JSON and its canonical outcome record
 fn outcome_cmd(args: &[String]) -> i32 {
     let p = props::get(&args[0]).expect("unknown property");
     let sc: Scenario = if args.len() >= 4 {
-        make_scenario(&p, &args[1], args[2].parse().unwrap(), args[3].parse().unwrap())
+        let (pid, t2, base, index) = (p.id.to_string(), args[1].clone(), args[2].parse::<u64>().unwrap(), args[3].parse::<u64>().unwrap());
+        isolate::isolated(move || make_scenario(&props::get(&pid).unwrap(), &t2, base, index)).expect("scenario generation died")
     } else {
         serde_json::from_slice(&std::fs::read(&args[1]).expect("cannot read scenario")).expect("bad scenario")
     };
-    let out = interp::run_scenario(&sc);
-    let v = View::new(&sc, &out);
-    let rec = p.outcome.map(|f| f(&v)).unwrap_or_default();
-    let vs = (p.check)(&v);
-    println!("{}", serde_json::json!({"scenario": sc, "record": rec, "record_hash": format!("{:016x}", prop_salt(&rec)), "violations": vs}));
+    let j = judge(&p, &sc, false);
+    let vs: Vec<serde_json::Value> = j.violations.iter().map(|v| serde_json::json!({"rule": v.1, "signature": v.2, "detail": v.3})).collect();
+    println!("{}", serde_json::json!({"scenario": sc, "record": j.record, "record_hash": format!("{:016x}", prop_salt(&j.record)), "violations": vs}));
     0
 }
 
@@ -417,9 +500,8 @@ fn hashes_cmd(args: &[String]) -> i32 {
     let start: u64 = args[3].parse().unwrap();
     let count: u64 = args[4].parse().unwrap();
     for index in start..start + count {
-        let sc = make_scenario(&p, tier, base, index);
-        let out = interp::run_scenario(&sc);
-        println!("{} {:016x} {}", index, out.hash, out.outcome.steps);
+        let r = isolate::isolated(|| per_run(&p, tier, base, index, false)).expect("run died");
+        println!("{} {:016x} {}", index, r.hash, r.steps);
     }
     0
 }
